@@ -89,6 +89,46 @@ theorem normArgs_wf (s : Schema) (defs : List ArgDef) (hd : ∀ d ∈ defs, Read
       obtain ⟨h1, h2⟩ := ih _ hst ha.2
       exact ⟨⟨⟨ha.1.1, hv⟩, h1⟩, h2⟩
 
+/-! ## printer-well-formed documents satisfy `LexSet` (the lexical premise of `normalized_transparent`) -/
+
+theorem wfArguments_mem : ∀ (as : List Argument), WFArguments as → ∀ a ∈ as, Reader.WFValue a.value
+  | [], _, a, ha => by cases ha
+  | x :: xs, h, a, ha => by
+    simp only [WFArguments] at h
+    rcases List.mem_cons.mp ha with rfl | ha
+    · exact h.1.2
+    · exact wfArguments_mem xs h.2 a ha
+
+mutual
+theorem lexSel_of_wf : ∀ (x : Selection), WFSelection x → LexSel x
+  | .field _ _ args _ sel _, h => by
+    simp only [WFSelection] at h
+    simp only [LexSel]
+    exact ⟨wfArguments_mem args h.2.2.1, lexOpt_of_wf sel h.2.2.2.2⟩
+  | .inline _ _ ss _, h => by
+    simp only [WFSelection] at h
+    simp only [LexSel]
+    exact lexSet_of_wf ss h.2.2
+  | .spread _ _ _, _ => by simp only [LexSel]
+theorem lexOpt_of_wf : ∀ (x : Option SelectionSet), WFOptSelSet x → LexOpt x
+  | none, _ => by simp only [LexOpt]
+  | some ss, h => by
+    simp only [WFOptSelSet] at h
+    simp only [LexOpt]
+    exact lexSet_of_wf ss h
+theorem lexSet_of_wf : ∀ (x : SelectionSet), WFSelSet x → LexSet x
+  | .mk sels _, h => by
+    simp only [WFSelSet] at h
+    simp only [LexSet]
+    exact lexList_of_wf sels h.2
+theorem lexList_of_wf : ∀ (xs : List Selection), WFSelections xs → LexList xs
+  | [], _ => by simp only [LexList]
+  | x :: xs, h => by
+    simp only [WFSelections] at h
+    simp only [LexList]
+    exact ⟨lexSel_of_wf x h.1, lexList_of_wf xs h.2⟩
+end
+
 section Walk
 variable (s : Schema) (hsch : SchemaOK s)
 include hsch
